@@ -189,6 +189,7 @@ type streamCfg struct {
 	faultErr                               error
 	faultWithData, eofWithData             bool
 	chunkPol, consPol                      int
+	zeroEvery                              bool // every other Read returns (0, nil)
 }
 
 // RunStream is one run of E2: one drawn stream and configuration; with a drawn probability the reader fault is
@@ -207,14 +208,31 @@ func RunStream(r *Run) {
 	} else {
 		stream, want, desc = genStream(r)
 	}
-	r.Res.Inputs["stream"] = b64(stream)
 	sc := streamCfg{faultAt: -1}
+	if !giant && !huge && c.Intn("zerostorm", 14) == 0 {
+		// a reader that makes no progress on every other call (legal: Read may return 0, nil) over a stream of many
+		// short lines: well over a hundred empty reads, never two in a row
+		var b bytes.Buffer
+		n := 110 + c.Intn("zerostormlines", 150)
+		for i := 0; i < n; i++ {
+			fmt.Fprintf(&b, `{"i":%d,"s":"v%d"}`+"\n", i, i*7)
+		}
+		stream = b.Bytes()
+		want = RefParseND(stream).Roots
+		desc = fmt.Sprintf("%d short lines behind a reader that returns (0, nil) on every other call", n)
+		sc.zeroEvery = true
+		r.stat("zero_read_storms", 1)
+	}
+	r.Res.Inputs["stream"] = b64(stream)
 	sc.gmp = []int{1, 2, 3, 4, 8, 16}[c.Intn("gomaxprocs", 6)]
 	sc.capRes = c.Intn("capres", 17)
 	sc.reuseMode = c.Intn("reusemode", 3) // 0 no channel, 1 recycle always, 2 recycle randomly
 	sc.capReuse = c.Intn("capreuse", 11)
 	sc.frag = c.Intn("frag", fragCount)
-	if len(stream) > 4000 && sc.frag <= fragThree {
+	if sc.zeroEvery {
+		sc.frag = fragLine
+	}
+	if len(stream) > 4000 && sc.frag <= fragThree && !sc.zeroEvery {
 		sc.frag = fragLine + c.Intn("fragbig", 5)
 	}
 	if huge {
@@ -332,6 +350,7 @@ func streamExec(r *Run, stream []byte, want []*MV, desc string, sc streamCfg) {
 	closed := false
 	var held []*delivered
 	steps, reads, zeroReads, chunksSeen := 0, 0, 0, 0
+	lastReadEmpty := false
 	readerDoneStep := -1
 	stuck := false
 	var consPanic *WalkPanic
@@ -488,6 +507,13 @@ func streamExec(r *Run, stream []byte, want []*MV, desc string, sc streamCfg) {
 					rr = readResult{0, io.EOF}
 					readerDoneStep = steps
 				default:
+					if sc.zeroEvery && !lastReadEmpty {
+						lastReadEmpty = true
+						r.stat("fault_zero_read", 1)
+						rr = readResult{0, nil}
+						break
+					}
+					lastReadEmpty = false
 					if zeroReads < 2 && c.Intn("zeroread", 25) == 0 {
 						zeroReads++
 						r.stat("fault_zero_read", 1)
